@@ -41,7 +41,15 @@
 //!                             from an async `Controller` that was sent the original datagram;
 //!   * `C20:panic:<what>`      the server (or the client conversion) panicked on a message;
 //!   * `C20:accepted:<what>`   a message with a missing required field / out-of-range number was not answered
-//!                             with an error.
+//!                             with an error;
+//!   * `C20:open:sound-speed-dropped`  probe: a client geometry with a non-default sound speed gives other frames
+//!                             through the server than directly (fires on the unchanged tree);
+//!   * `C20:rpc:<fpga_state|firmware_version>`  the RPC's response, decoded by the client's `from_msg`, differs from
+//!                             the direct controller's result (oracle only);
+//!   * `C20:lifecycle:<step>`  RPC before open / open without geometry / bare device / second open / close (oracle only);
+//!   * `C20:delayed-ack:<case>` behind a link that withholds acknowledgements: SenderOption timeout / receive interval
+//!                             and the merged DatagramOption timeout of a pair (oracle only, three attempts).
+//! Model-invisible generator dimensions: the geometry handed to `open` (`devices_v`: rotated / shifted devices).
 #![allow(dead_code, clippy::all)]
 use crate::common::*;
 use autd3::prelude::*;
@@ -1482,6 +1490,78 @@ pub fn geometry(nn: usize) -> Geometry {
     Geometry::new(devices(nn).into_iter().map(|d| d.into()).collect())
 }
 
+/// does this device travel through `Geometry -> message -> Geometry` bit for bit (rotation and all transducers)?
+fn pose_is_stable(d: AUTD3<UnitQuaternion>) -> bool {
+    let g = Geometry::new(vec![d.into()]);
+    let Ok(g2) = Geometry::from_msg((&g).into()) else { return false };
+    let bits = |g: &Geometry| -> Vec<u32> {
+        let d = &g[0];
+        let r = d.rotation();
+        let mut v = vec![r.w.to_bits(), r.i.to_bits(), r.j.to_bits(), r.k.to_bits()];
+        for t in d.iter() {
+            let p = t.position();
+            v.extend([p.x.to_bits(), p.y.to_bits(), p.z.to_bits()]);
+        }
+        v
+    };
+    bits(&g) == bits(&g2)
+}
+
+/// Geometry variants of the two worlds (the client's geometry is what `open` carries to the server, which rebuilds its
+/// controller from it: server/mod.rs `open`).
+///   0: devices side by side, identity rotation, default sound speed;
+///   1: every device rotated about all three axes and shifted in y and z. The rotations are drawn (seeded) until the
+///      quaternion survives the message round trip bit for bit - the decoder re-normalises it, C18 -, so that the
+///      server's rebuilt device is exactly the client's and frames can be compared bit for bit;
+///   2: variant 1 with a different, non-default sound speed on every device;
+///   3: variant 0 with a different, non-default sound speed on every device (350, 353, … m/s; default 340 m/s).
+pub fn devices_v(nn: usize, gv: usize) -> Vec<Device> {
+    let mut r = Rng::new(0xC20_6E0 + gv as u64);
+    (0..nn)
+        .map(|i| {
+            if gv == 0 || gv == 3 {
+                let mut d: Device = AUTD3 { pos: Point3::new(i as f32 * 192.0, 0., 0.), rot: UnitQuaternion::identity() }.into();
+                if gv == 3 {
+                    d.sound_speed = (350.0 + 3.0 * i as f32) * 1000.0;
+                }
+                return d;
+            }
+            let pos = Point3::new(i as f32 * 192.0 + 3.5, 10.0 * i as f32 - 4.25, 7.75 * i as f32 + 1.5);
+            let mut found = None;
+            for _ in 0..10_000 {
+                let ang = |r: &mut Rng| (r.below(6_283_186) as f32 - 3_141_593.0) / 1_000_000.0;
+                let rot = UnitQuaternion::from_euler_angles(ang(&mut r) * 0.2, ang(&mut r) * 0.2, ang(&mut r));
+                if rot != UnitQuaternion::identity() && pose_is_stable(AUTD3 { pos, rot }) {
+                    found = Some(rot);
+                    break;
+                }
+            }
+            let mut d: Device = AUTD3 { pos, rot: found.expect("no stable rotation found") }.into();
+            if gv == 2 {
+                d.sound_speed = (350.0 + 3.0 * i as f32) * 1000.0; // mm/s (default: 340e3)
+            }
+            d
+        })
+        .collect()
+}
+pub fn geometry_v(nn: usize, gv: usize) -> Geometry {
+    Geometry::new(devices_v(nn, gv))
+}
+/// the geometry message of `open`, as text (for replays): `(open (l (autd3 (p X Y Z) (q W I J K) SS)*))`, f32 as bit patterns
+fn open_text(nn: usize, gv: usize) -> String {
+    let m: pb::Geometry = (&geometry_v(nn, gv)).into();
+    let devs = m
+        .devices
+        .iter()
+        .map(|d| {
+            let p = d.pos.clone().unwrap();
+            let q = d.rot.clone().unwrap();
+            n("autd3", vec![n("p", vec![fb(p.x), fb(p.y), fb(p.z)]), n("q", vec![fb(q.w), fb(q.x), fb(q.y), fb(q.z)]), fb(d.sound_speed.unwrap())])
+        })
+        .collect();
+    n("open", vec![lst(devs)]).text()
+}
+
 /// `lightweight::Datagram::into_lightweight` for a single datagram (the real client entry point)
 fn client_single(d: &Sx, geo: &Geometry) -> Result<pb::DatagramTuple, AUTDProtoBufError> {
     with_dg!(gstm_lw_gains, d, x => into_lw(x, geo))
@@ -1520,12 +1600,22 @@ pub struct Rec {
     pub frames: usize,
     pub total: u64,
     pub open: bool,
+    /// type byte of the firmware-information request in the last frame (0 = the last frame was none): all emulators
+    /// answer every type with the same two bytes (0xA3 / 0x00), so the link rewrites the answer of device i to
+    /// `0x10·type + i` - a mixed-up version kind or device index then shows in `firmware_version()`
+    pub firm: u8,
+    /// number of `receive` calls after each `send` that do not deliver the acknowledgement (delayed-ack mode)
+    pub hold: usize,
+    pub pending: usize,
+    /// `open` / `close` calls seen by the link
+    pub opens: usize,
+    pub closes: usize,
 }
 #[derive(Clone)]
 pub struct RecLink(pub Arc<Mutex<Rec>>);
 
 fn new_rec() -> Arc<Mutex<Rec>> {
-    Arc::new(Mutex::new(Rec { cpus: vec![], fh: 0, frames: 0, total: 0, open: false }))
+    Arc::new(Mutex::new(Rec { cpus: vec![], fh: 0, frames: 0, total: 0, open: false, firm: 0, hold: 0, pending: 0, opens: 0, closes: 0 }))
 }
 
 #[autd3_core::async_trait]
@@ -1542,10 +1632,15 @@ impl AsyncLink for RecLink {
             })
             .collect();
         r.open = true;
+        r.opens += 1;
+        r.firm = 0;
+        r.pending = 0;
         Ok(())
     }
     async fn close(&mut self) -> Result<(), LinkError> {
-        self.0.lock().unwrap_or_else(|e| e.into_inner()).open = false;
+        let mut r = self.0.lock().unwrap_or_else(|e| e.into_inner());
+        r.open = false;
+        r.closes += 1;
         Ok(())
     }
     async fn send(&mut self, tx: &[TxMessage]) -> Result<(), LinkError> {
@@ -1560,15 +1655,31 @@ impl AsyncLink for RecLink {
         for c in r.cpus.iter_mut() {
             c.send(tx);
         }
+        r.firm = match tx.first().map(|t| t.payload()) {
+            Some(p) if p[0] == 0x03 && (1..=5).contains(&p[1]) => p[1],
+            _ => 0,
+        };
+        r.pending = r.hold;
         Ok(())
     }
     async fn receive(&mut self, rx: &mut [RxMessage]) -> Result<(), LinkError> {
         let mut r = self.0.lock().unwrap_or_else(|e| e.into_inner());
         // the clock is a function of the number of frames seen so far: identical in both worlds
         let t = DcSysTime::ZERO + Duration::from_micros(500 * r.total);
+        let withheld = r.pending > 0;
+        if withheld {
+            r.pending -= 1;
+        }
+        let firm = r.firm;
         for c in r.cpus.iter_mut() {
             c.update_with_sys_time(t);
+            if withheld {
+                continue; // the device has processed the frame, the acknowledgement has not arrived yet
+            }
             rx[c.idx()] = c.rx();
+            if firm != 0 {
+                rx[c.idx()] = RxMessage::new(0x10 * firm + c.idx() as u8, c.rx().ack());
+            }
         }
         Ok(())
     }
@@ -1636,11 +1747,14 @@ pub struct ServerWorld {
 }
 impl ServerWorld {
     pub fn new(rt: &tokio::runtime::Runtime, nn: usize) -> Self {
+        Self::new_v(rt, nn, 0)
+    }
+    pub fn new_v(rt: &tokio::runtime::Runtime, nn: usize, gv: usize) -> Self {
         let rec = new_rec();
         let link = RecLink(rec.clone());
         let f: LinkFn = Box::new(move || Ok(link.clone()));
         let srv = LightweightServer::new(f);
-        let geo = geometry(nn);
+        let geo = geometry_v(nn, gv);
         let r = rt
             .block_on(srv.open(tonic::Request::new(pb::OpenRequestLightweight { geometry: Some((&geo).into()), sender_option: None })))
             .expect("open")
@@ -1669,6 +1783,77 @@ impl ServerWorld {
         let r = guarded(|| rt.block_on(self.srv.group_send(tonic::Request::new(req))));
         self.finish(r)
     }
+    /// a server nobody has opened yet
+    pub fn unopened() -> Self {
+        let rec = new_rec();
+        let link = RecLink(rec.clone());
+        let f: LinkFn = Box::new(move || Ok(link.clone()));
+        ServerWorld { rec, srv: LightweightServer::new(f), n: 0 }
+    }
+    pub fn open(&self, rt: &tokio::runtime::Runtime, req: pb::OpenRequestLightweight) -> Outcome {
+        begin(&self.rec);
+        let r = guarded(|| rt.block_on(self.srv.open(tonic::Request::new(req))));
+        self.finish(r)
+    }
+    pub fn close(&self, rt: &tokio::runtime::Runtime) -> Outcome {
+        begin(&self.rec);
+        let r = guarded(|| rt.block_on(self.srv.close(tonic::Request::new(pb::CloseRequestLightweight {}))));
+        self.finish(r)
+    }
+    /// `fpga_state` RPC, decoded with the client's `from_msg`: (value as text, outcome)
+    pub fn fpga_state(&self, rt: &tokio::runtime::Runtime) -> (String, Outcome) {
+        begin(&self.rec);
+        let r = guarded(|| rt.block_on(self.srv.fpga_state(tonic::Request::new(pb::FpgaStateRequestLightweight {}))));
+        let (val, status) = match r {
+            Ok(Ok(resp)) => {
+                let resp = resp.into_inner();
+                if resp.err {
+                    ("-".to_string(), format!("resp-err {}", resp.msg))
+                } else {
+                    match guarded(|| Vec::<Option<autd3_driver::firmware::fpga::FPGAState>>::from_msg(resp)) {
+                        Ok(Ok(v)) => (fpga_state_text(&v), "ok".to_string()),
+                        Ok(Err(e)) => ("-".to_string(), format!("client-err {}", err_kind(&e))),
+                        Err(p) => ("-".to_string(), panic_status(&p)),
+                    }
+                }
+            }
+            Ok(Err(st)) => ("-".to_string(), format!("status {}", status_kind(&st))),
+            Err(p) => ("-".to_string(), panic_status(&p)),
+        };
+        (val, end(&self.rec, status))
+    }
+    /// `firmware_version` RPC, decoded with the client's `from_msg`
+    pub fn firmware_version(&self, rt: &tokio::runtime::Runtime) -> (String, Outcome) {
+        begin(&self.rec);
+        let r = guarded(|| rt.block_on(self.srv.firmware_version(tonic::Request::new(pb::FirmwareVersionRequestLightweight {}))));
+        let (val, status) = match r {
+            Ok(Ok(resp)) => {
+                let resp = resp.into_inner();
+                if resp.err {
+                    ("-".to_string(), format!("resp-err {}", resp.msg))
+                } else {
+                    match guarded(|| Vec::<autd3_driver::firmware::version::FirmwareVersion>::from_msg(resp)) {
+                        Ok(Ok(v)) => (version_text(&v), "ok".to_string()),
+                        Ok(Err(e)) => ("-".to_string(), format!("client-err {}", err_kind(&e))),
+                        Err(p) => ("-".to_string(), panic_status(&p)),
+                    }
+                }
+            }
+            Ok(Err(st)) => ("-".to_string(), format!("status {}", status_kind(&st))),
+            Err(p) => ("-".to_string(), panic_status(&p)),
+        };
+        (val, end(&self.rec, status))
+    }
+}
+
+fn fpga_state_text(v: &[Option<autd3_driver::firmware::fpga::FPGAState>]) -> String {
+    v.iter().map(|s| s.map(|s| format!("{:02x}", s.state())).unwrap_or("~".into())).collect::<Vec<_>>().join(",")
+}
+fn version_text(v: &[autd3_driver::firmware::version::FirmwareVersion]) -> String {
+    v.iter()
+        .map(|f| format!("{}:cpu={:02x}.{:02x}:fpga={:02x}.{:02x}:fn={:02x}", f.idx, f.cpu.major.0, f.cpu.minor.0, f.fpga.major.0, f.fpga.minor.0, f.fpga.function_bits))
+        .collect::<Vec<_>>()
+        .join(",")
 }
 
 type Ctl = autd3::r#async::Controller<RecLink>;
@@ -1753,8 +1938,11 @@ pub struct DirectWorld {
 }
 impl DirectWorld {
     pub fn new(rt: &tokio::runtime::Runtime, nn: usize) -> Self {
+        Self::new_v(rt, nn, 0)
+    }
+    pub fn new_v(rt: &tokio::runtime::Runtime, nn: usize, gv: usize) -> Self {
         let rec = new_rec();
-        let ctl = rt.block_on(Ctl::open(devices(nn), RecLink(rec.clone()))).expect("direct open");
+        let ctl = rt.block_on(Ctl::open(devices_v(nn, gv), RecLink(rec.clone()))).expect("direct open");
         DirectWorld { rec, ctl, n: nn }
     }
     fn finish(&self, r: Result<Result<(), String>, String>) -> Outcome {
@@ -1781,6 +1969,26 @@ impl DirectWorld {
             })
         });
         self.finish(r)
+    }
+    pub fn fpga_state(&mut self, rt: &tokio::runtime::Runtime) -> (String, Outcome) {
+        begin(&self.rec);
+        let ctl = &mut self.ctl;
+        let (val, status) = match guarded(|| rt.block_on(ctl.fpga_state())) {
+            Ok(Ok(v)) => (fpga_state_text(&v), "ok".to_string()),
+            Ok(Err(e)) => ("-".to_string(), format!("resp-err {e}")),
+            Err(p) => ("-".to_string(), panic_status(&p)),
+        };
+        (val, end(&self.rec, status))
+    }
+    pub fn firmware_version(&mut self, rt: &tokio::runtime::Runtime) -> (String, Outcome) {
+        begin(&self.rec);
+        let ctl = &mut self.ctl;
+        let (val, status) = match guarded(|| rt.block_on(ctl.firmware_version())) {
+            Ok(Ok(v)) => (version_text(&v), "ok".to_string()),
+            Ok(Err(e)) => ("-".to_string(), format!("resp-err {e}")),
+            Err(p) => ("-".to_string(), panic_status(&p)),
+        };
+        (val, end(&self.rec, status))
     }
     pub fn group_send(&mut self, rt: &tokio::runtime::Runtime, keys: &[i32], tuples: &[Sx], so: Option<&Sx>) -> Outcome {
         begin(&self.rec);
@@ -1861,6 +2069,7 @@ fn schema(tag: &str) -> Schema {
         "spin" => s(&[], &[], &[(2, "strat")]),
         "std" | "async" => s(&[], &[1], &[]),
         "send" => s(&[1], &[2], &[]),
+        "gsend" => s(&[], &[3], &[]),
         _ => s(&[], &[], &[]),
     }
 }
@@ -2390,6 +2599,10 @@ struct Cx<'a> {
     rt: &'a tokio::runtime::Runtime,
     out: &'a mut Out,
     n: usize,
+    /// geometry variant of the worlds (`devices_v`)
+    gv: usize,
+    /// violation key of `frames` comparisons, when they belong to one named probe
+    force_key: Option<(String, String)>,
     geo: Geometry,
     pair: Option<(ServerWorld, DirectWorld)>,
     scratch: Option<ServerWorld>,
@@ -2433,14 +2646,15 @@ fn leaves(d: &Sx, m: &Sx, out: &mut Vec<(String, Sx, Sx)>) {
 impl Cx<'_> {
     fn worlds(&mut self) -> &mut (ServerWorld, DirectWorld) {
         if self.pair.is_none() {
-            self.pair = Some((ServerWorld::new(self.rt, self.n), DirectWorld::new(self.rt, self.n)));
+            self.pair = Some((ServerWorld::new_v(self.rt, self.n, self.gv), DirectWorld::new_v(self.rt, self.n, self.gv)));
+            self.out.count(&format!("worlds-opened:geometry-variant-{}", self.gv));
             self.out.count("worlds-opened");
         }
         self.pair.as_mut().unwrap()
     }
     fn scratch(&mut self) -> &ServerWorld {
         if self.scratch.is_none() {
-            self.scratch = Some(ServerWorld::new(self.rt, self.n));
+            self.scratch = Some(ServerWorld::new_v(self.rt, self.n, self.gv));
         }
         self.scratch.as_ref().unwrap()
     }
@@ -2529,14 +2743,18 @@ impl Cx<'_> {
     /// the implementation oracle: server behind the message vs controller sent the original
     fn frames(&mut self, t: &Sx, so: Option<&Sx>) {
         let kind = if t.head() == "t1" { kind_name(t.at(1)) } else { format!("({},{})", kind_name(t.at(1)), kind_name(t.at(2))) };
-        let key = format!("C20:frames:{kind}{}", if so.is_some() { "+sopt" } else { "" });
+        let (key, what_prefix) = self.force_key.clone().unwrap_or((format!("C20:frames:{kind}{}", if so.is_some() { "+sopt" } else { "" }), String::new()));
         self.out.case(Some(fnv64(format!("{}{:?}", t.text(), so.map(|s| s.text())).as_bytes())));
         self.out.count(&format!("frames:{kind}"));
         let nn = self.n;
-        let geo = geometry(self.n);
-        let replay = vec![format!("frames {} {}", t.text(), so.map(|s| s.text()).unwrap_or("~".into()))];
+        let geo = geometry_v(self.n, self.gv);
+        let mut replay = vec![format!("frames {} {}", t.text(), so.map(|s| s.text()).unwrap_or("~".into()))];
         if std::env::var("C20_TRACE").is_ok() {
             eprintln!("BEGIN {}", replay[0]);
+        }
+        if self.gv != 0 {
+            // the worlds were opened with this geometry (identity rotations, 192 mm apart, 340 m/s otherwise)
+            replay.insert(0, open_text(self.n, self.gv));
         }
         let msg = match guarded(|| client_tuple(t, &geo)) {
             Err(p) => {
@@ -2608,7 +2826,7 @@ impl Cx<'_> {
             os == od
         };
         if !same {
-            self.out.violation(key, format!("server: {} | direct: {}", os.text(), od.text()), replay);
+            self.out.violation(key, format!("{what_prefix}{kind}: server: {} | direct: {}", os.text(), od.text()), replay);
         }
         // a pack error under ParallelMode::On leaves the per-device message ids schedule dependent (rayon): the next
         // frames of either world are then not reproducible - start afresh (serial packing is deterministic)
@@ -2617,6 +2835,228 @@ impl Cx<'_> {
             self.pair = None;
         }
         self.out.sample(format!("{} -> {}", t.text(), os.text()));
+    }
+
+    /// Probe (stable key `C20:open:sound-speed-dropped`): the client's geometry carries a sound speed per device
+    /// (`Controller::open` of the lightweight client accepts `Device`s; `Geometry -> message` transmits it, C18). A
+    /// server that rebuilds its controller from positions and rotations only computes every phase (Focus, Bessel,
+    /// holo) and the FociSTM sound-speed word for 340 m/s instead. One device, identity rotation, 350 m/s; one
+    /// Focus and one two-point FociSTM. Returns whether the server honours the sound speed.
+    fn sound_speed_probe(&mut self) -> bool {
+        let (n0, gv0) = (self.n, self.gv);
+        self.n = 1;
+        self.gv = 3;
+        self.geo = geometry_v(1, 3);
+        self.pair = None;
+        self.force_key = Some((
+            "C20:open:sound-speed-dropped".into(),
+            "the client's geometry (one device at the origin, identity rotation, sound speed 350 m/s) is handed to `open`; the server's controller computes for the default 340 m/s (server/mod.rs `open` rebuilds the devices from position and rotation only): ".into(),
+        ));
+        let before = self.out.violations.len();
+        let relax = n("t1", vec![n("steps", vec![a(10), a(40), b(false)])]);
+        self.frames(&relax, None);
+        let p = |x: f32, y: f32, z: f32| n("p", vec![fb(x), fb(y), fb(z)]);
+        self.frames(&n("t1", vec![n("focus", vec![p(10., 20., 150.), n("o", vec![a(255), a(0)])])]), None);
+        let cps = |x: f32| n("cps", vec![lst(vec![n("cp", vec![p(x, 20., 150.), a(0)])]), a(255)]);
+        self.frames(&n("t1", vec![n("foci", vec![a(1), lst(vec![cps(10.), cps(-10.)]), n("div", vec![a(10)])])]), None);
+        let honoured = self.out.violations.len() == before;
+        self.out.count(if honoured { "open:sound-speed:honoured" } else { "open:sound-speed:dropped" });
+        self.force_key = None;
+        self.n = n0;
+        self.gv = gv0;
+        self.geo = geometry_v(n0, gv0);
+        self.pair = None;
+        honoured
+    }
+
+    /// `firmware_version` and `fpga_state` RPCs on the current worlds (oracle only, no op line: Model/Lightweight.lean
+    /// has no open/version/state): the server's response, decoded with the client's `from_msg`, must be what the
+    /// direct controller returns, with the same frames on the link and the same device state behind it
+    fn rpcs(&mut self, tag: &str) {
+        let rt = self.rt;
+        let mut replay = vec![format!("rpc fpga_state + firmware_version {tag} ({} devices)", self.n)];
+        if self.gv != 0 {
+            replay.insert(0, open_text(self.n, self.gv));
+        }
+        let (sw, dw) = self.worlds();
+        let (sv, so) = sw.fpga_state(rt);
+        let (dv, dout) = dw.fpga_state(rt);
+        let (svv, sov) = sw.firmware_version(rt);
+        let (dvv, dov) = dw.firmware_version(rt);
+        self.out.case(Some(fnv64(format!("rpc {tag} {sv} {svv}").as_bytes())));
+        self.out.count(&format!("rpc:fpga_state:{tag}:{}", so.class()));
+        self.out.count(&format!("rpc:firmware_version:{tag}:{}", sov.class()));
+        for st in sv.split(',') {
+            self.out.count(&format!("rpc:fpga_state:value:{}", if st == "~" { "None" } else if u8::from_str_radix(st, 16).map(|b| b & 1 == 1).unwrap_or(false) { "Some(thermal asserted)" } else { "Some" }));
+        }
+        if sv != dv || so != dout {
+            self.out.violation(
+                "C20:rpc:fpga_state".into(),
+                format!("fpga_state() {tag}: through the server [{sv}] {} | direct controller [{dv}] {}", so.text(), dout.text()),
+                replay.clone(),
+            );
+            self.pair = None;
+        }
+        if svv != dvv || sov != dov {
+            self.out.violation(
+                "C20:rpc:firmware_version".into(),
+                format!("firmware_version() {tag}: through the server [{svv}] {} | direct controller [{dvv}] {}", sov.text(), dov.text()),
+                replay,
+            );
+            self.pair = None;
+        }
+        if tag.contains("mixed") && self.n >= 2 && !self.out.notes.iter().any(|x| x.starts_with("rpc ")) {
+            self.out.notes.push(format!("rpc {tag} ({} devices; the link answers version kind k of device i with 0x10*k+i): fpga_state [{sv}] firmware_version [{svv}]", self.n));
+        }
+    }
+
+    /// assert the thermal sensor of one emulator in both worlds
+    fn thermal(&mut self, dev: usize) {
+        let (sw, dw) = self.worlds();
+        for rec in [&sw.rec, &dw.rec] {
+            let mut r = rec.lock().unwrap_or_else(|e| e.into_inner());
+            if let Some(c) = r.cpus.get_mut(dev) {
+                c.fpga_mut().assert_thermal_sensor();
+            }
+        }
+    }
+
+    /// the other RPCs and their order (oracle only): RPCs before `open`, `open` without geometry / with a device whose
+    /// fields are all absent, a second `open`, `close` and RPCs after it. Every answer is an error response or a
+    /// result, never a panic or a transport error; an opened server behaves like a freshly opened controller.
+    fn lifecycle(&mut self) {
+        let rt = self.rt;
+        let key = |w: &str| format!("C20:lifecycle:{w}");
+        let focus = n("t1", vec![n("focus", vec![n("p", vec![fb(10.), fb(20.), fb(150.)]), n("o", vec![a(255), a(0)])])]);
+        let send_req = |geo: &Geometry| pb::SendRequestLightweight { datagram: Some(client_tuple(&focus, geo).unwrap()), sender_option: None };
+        let mut check = |out: &mut Out, what: &str, o: &Outcome, want: &str, replay: &str| {
+            out.count(&format!("lifecycle:{what}:{}", o.class()));
+            if o.class() != want {
+                out.violation(key(what), format!("{what}: expected `{want}`, the server answers {}", o.text()), vec![replay.to_string()]);
+            }
+        };
+        // (a) nothing opened yet: every RPC is answered with an error response
+        {
+            let sw = ServerWorld::unopened();
+            let g1 = geometry(1);
+            check(self.out, "send-before-open", &sw.send(rt, send_req(&g1)), "resp-err", "send before open");
+            check(self.out, "group_send-before-open", &sw.group_send(rt, pb::GroupSendRequestLightweight { keys: vec![0], datagrams: vec![client_tuple(&focus, &g1).unwrap()], sender_option: None }), "resp-err", "group_send before open");
+            check(self.out, "fpga_state-before-open", &sw.fpga_state(rt).1, "resp-err", "fpga_state before open");
+            check(self.out, "firmware_version-before-open", &sw.firmware_version(rt).1, "resp-err", "firmware_version before open");
+            check(self.out, "close-before-open", &sw.close(rt), "resp-err", "close before open");
+            // (b) open without geometry: error response, and the server stays closed
+            check(self.out, "open-without-geometry", &sw.open(rt, pb::OpenRequestLightweight { geometry: None, sender_option: None }), "resp-err", "(open ~)");
+            check(self.out, "send-after-failed-open", &sw.send(rt, send_req(&g1)), "resp-err", "(open ~) then send");
+            // (c) a device with every field absent is a default AUTD3 at the origin: the same frames as a direct controller
+            let bare = pb::Geometry { devices: vec![pb::geometry::Autd3 { pos: None, rot: None, sound_speed: None }] };
+            check(self.out, "open-bare-device", &sw.open(rt, pb::OpenRequestLightweight { geometry: Some(bare), sender_option: None }), "ok", "(open (l (autd3 ~ ~ ~)))");
+            let mut dw = DirectWorld::new(rt, 1);
+            let (os, od) = (sw.send(rt, send_req(&g1)), dw.send(rt, &focus, None, true));
+            self.out.count(&format!("lifecycle:bare-device-frames:{}", os.class()));
+            if os != od {
+                self.out.violation(key("open-bare-device"), format!("device with all fields absent: server {} | direct controller with AUTD3 at the origin {}", os.text(), od.text()), vec!["(open (l (autd3 ~ ~ ~)))".into(), format!("frames {} ~", focus.text())]);
+            }
+            // (d) a second open (two devices, rotated) replaces the controller: the link is closed and opened again,
+            // the new device count holds, frames are those of a fresh direct controller
+            let g2 = geometry_v(2, 1);
+            check(self.out, "second-open", &sw.open(rt, pb::OpenRequestLightweight { geometry: Some((&g2).into()), sender_option: None }), "ok", "second open");
+            {
+                let r = sw.rec.lock().unwrap_or_else(|e| e.into_inner());
+                if r.opens != 2 || r.closes != 1 || r.cpus.len() != 2 {
+                    self.out.violation(key("second-open"), format!("after a second open the link saw {} opens / {} closes and has {} devices (expected 2 / 1 / 2)", r.opens, r.closes, r.cpus.len()), vec!["open (1 device) then open (2 devices)".into()]);
+                }
+            }
+            let mut dw2 = DirectWorld::new_v(rt, 2, 1);
+            let (os, od) = (sw.send(rt, send_req(&g2)), dw2.send(rt, &focus, None, true));
+            if os != od {
+                self.out.violation(key("second-open"), format!("after a second open: server {} | fresh direct controller {}", os.text(), od.text()), vec![open_text(2, 1), format!("frames {} ~", focus.text())]);
+            }
+            let (sv, so) = sw.firmware_version(rt);
+            let (dv, dout) = dw2.firmware_version(rt);
+            if sv != dv || so != dout {
+                self.out.violation(key("second-open"), format!("firmware_version after a second open: server [{sv}] {} | direct [{dv}] {}", so.text(), dout.text()), vec!["second open then firmware_version".into()]);
+            }
+            // (e) close, then every RPC is refused again; a second close is refused, too
+            check(self.out, "close", &sw.close(rt), "ok", "close");
+            if sw.rec.lock().unwrap_or_else(|e| e.into_inner()).open {
+                self.out.violation(key("close"), "the link is still open after `close`".into(), vec!["close".into()]);
+            }
+            check(self.out, "send-after-close", &sw.send(rt, send_req(&g2)), "resp-err", "close then send");
+            check(self.out, "fpga_state-after-close", &sw.fpga_state(rt).1, "resp-err", "close then fpga_state");
+            check(self.out, "close-after-close", &sw.close(rt), "resp-err", "close then close");
+            self.out.case(Some(fnv64(b"lifecycle")));
+        }
+    }
+
+    /// One send behind a link that withholds the acknowledgement for `hold` receives after every frame (oracle only).
+    /// Behind an immediately acknowledging link `SenderOption::timeout` / `receive_interval` and the merged
+    /// `DatagramOption::timeout` of a pair are unobservable; here they decide between `ok` (all frames) and
+    /// `ConfirmResponseFailed` (after the first frame), and the time a send takes. Outcomes are chosen to be far from
+    /// the deciding time (never acknowledged vs. zero / 5 ms timeout; acknowledged after 40-50 ms vs. 20 ms / 200 ms / 10 s);
+    /// a mismatch is reported only if it shows in three attempts with fresh worlds (wall-clock timeouts).
+    fn delayed(&mut self, name: &str, hold: usize, tuples: &[Sx], keys: Option<&[i32]>, so: Option<&Sx>, min_elapsed: Option<Duration>) {
+        let rt = self.rt;
+        let relax = n("t1", vec![n("steps", vec![a(10), a(40), b(false)])]);
+        let geo = geometry_v(self.n, self.gv);
+        let mut last = String::new();
+        let mut class = String::new();
+        for attempt in 0..3 {
+            self.pair = None;
+            let (sw, dw) = self.worlds();
+            let relax_req = pb::SendRequestLightweight { datagram: Some(client_tuple(&relax, &geo).unwrap()), sender_option: None };
+            sw.send(rt, relax_req);
+            dw.send(rt, &relax, None, true);
+            for rec in [&sw.rec, &dw.rec] {
+                rec.lock().unwrap_or_else(|e| e.into_inner()).hold = hold;
+            }
+            let msgs: Vec<pb::DatagramTuple> = tuples.iter().map(|t| client_tuple(t, &geo).unwrap()).collect();
+            let t0 = std::time::Instant::now();
+            let os = match keys {
+                None => sw.send(rt, pb::SendRequestLightweight { datagram: Some(msgs[0].clone()), sender_option: so.map(sopt_to_msg) }),
+                Some(k) => sw.group_send(rt, pb::GroupSendRequestLightweight { keys: k.to_vec(), datagrams: msgs.clone(), sender_option: so.map(sopt_to_msg) }),
+            };
+            let elapsed = t0.elapsed();
+            let od = match keys {
+                None => dw.send(rt, &tuples[0], so, true),
+                Some(k) => dw.group_send(rt, k, tuples, so),
+            };
+            class = os.class().to_string();
+            let mut bad = None;
+            if os != od {
+                bad = Some(format!("server: {} | direct: {}", os.text(), od.text()));
+            } else if let Some(m) = min_elapsed {
+                if os.class() == "ok" && elapsed < m * 9 / 10 {
+                    bad = Some(format!("the server needed only {elapsed:?}; with the receive interval / timeout of the request at least {m:?}"));
+                }
+            }
+            match bad {
+                None => {
+                    last.clear();
+                    break;
+                }
+                Some(w) => {
+                    last = w;
+                    self.out.count(&format!("delayed-ack:retry:{attempt}"));
+                }
+            }
+        }
+        self.pair = None;
+        self.out.case(Some(fnv64(format!("delayed {name}").as_bytes())));
+        self.out.count(&format!("delayed-ack:{name}:{class}"));
+        if !last.is_empty() {
+            let mut replay = vec![format!("link withholds the acknowledgement for {} receives after every frame", if hold == usize::MAX { "all".to_string() } else { hold.to_string() })];
+            match keys {
+                None => replay.push(format!("frames {} {}", tuples[0].text(), so.map(|s| s.text()).unwrap_or("~".into()))),
+                Some(k) => replay.push(format!("group_send keys {k:?} {} {}", tuples.iter().map(|t| t.text()).collect::<Vec<_>>().join(" "), so.map(|s| s.text()).unwrap_or("~".into()))),
+            }
+            if let Some(obs) = name.strip_prefix("observation:") {
+                // not the property (frames and device state are the same): recorded as a note, see the call site
+                self.out.count(&format!("delayed-ack:observation:{obs}"));
+                self.out.notes.push(format!("observation {obs}: {last} [{}]", replay.join(" ; ")));
+            } else {
+                self.out.violation(format!("C20:delayed-ack:{name}"), format!("{name} (3 attempts): {last}"), replay);
+            }
+        }
     }
 
     /// a (possibly malformed) request through a scratch server
@@ -2639,9 +3079,32 @@ impl Cx<'_> {
         }
     }
 
+    /// a (possibly malformed) group request through a scratch server
+    fn gsrv_raw(&mut self, req: &Sx, mu: Option<&Mutation>) {
+        let nn = self.n;
+        let rt = self.rt;
+        let o = self.scratch().group_send(rt, x_group(req));
+        let (ans, class) = match o.class() {
+            "ok" | "emu-panic" => ("ok".to_string(), "ok"),
+            "resp-err" if o.status.contains("Length of keys") => ("len-mismatch".to_string(), "err"),
+            "resp-err" => ("ok".to_string(), "ok"),
+            "status" => (o.status.clone(), "err"),
+            _ => ("panic".to_string(), "panic"),
+        };
+        let op = format!("gsrv {nn} {}", req.text());
+        self.out.line(&op, &ans);
+        self.out.count(&format!("group-malformed:{}", ans.split(' ').take(2).collect::<Vec<_>>().join("-")));
+        if let Some(mu) = mu {
+            self.expect(mu, class, &op);
+        }
+        if class == "panic" || o.class() == "emu-panic" {
+            self.scratch = None;
+        }
+    }
+
     fn gsrv(&mut self, keys: &[i32], tuples: &[Sx], so: Option<&Sx>, compare: bool) {
         let nn = self.n;
-        let geo = geometry(self.n);
+        let geo = geometry_v(self.n, self.gv);
         let msgs: Vec<pb::DatagramTuple> = match guarded(|| tuples.iter().map(|t| client_tuple(t, &geo)).collect::<Result<Vec<_>, _>>()) {
             Ok(Ok(m)) => m,
             Ok(Err(_)) => return,
@@ -2720,7 +3183,7 @@ pub fn run(args: &Args) {
     // `Controller::drop` asks for the current runtime handle: keep the context entered while worlds are dropped
     let _guard = rt.enter();
     out.line(&format!("defaults {}", defaults_sx().text()), "ok");
-    let mut cx = Cx { rt: &rt, out: &mut out, n: 2, geo: geometry(2), pair: None, scratch: None };
+    let mut cx = Cx { rt: &rt, out: &mut out, n: 2, gv: 0, force_key: None, geo: geometry(2), pair: None, scratch: None };
     let seed = args.seed ^ 0xC20C_20C2_0C20;
 
     // ---- corpus: witnesses of defects found on the unchanged tree, stable keys, always first -------------
@@ -2755,6 +3218,9 @@ pub fn run(args: &Args) {
         }
         cx.pair = None;
     }
+
+    // ---- probe: does the server honour the sound speed of the client's geometry? (stable key) ---------------
+    let sound_speed_honoured = cx.sound_speed_probe();
 
     // ---- conversions of every kind with unrestricted values -------------------------------------------------
     let reps = if thorough { 24 } else { 3 };
@@ -2800,11 +3266,17 @@ pub fn run(args: &Args) {
     // ---- frames and device state: server vs direct ------------------------------------------------------------
     {
         let mut g = Gen { r: Rng::new(seed ^ 3), nice: true };
-        let reps = if thorough { 12 } else { 2 };
+        let reps = if thorough { 12 } else { 3 };
         for rep in 0..reps {
             // histories: the two worlds live through the whole repetition
             cx.n = [2, 1, 3][rep % 3];
-            cx.geo = geometry(cx.n);
+            // the geometry the client hands to `open`: every (device count, rotated or not) combination over six repetitions
+            cx.gv = [0, 1, 1, 1, 0, 0][rep % 6];
+            // (with per-device sound speeds as well, once the server takes them over: until then every phase differs)
+            if cx.gv == 1 && sound_speed_honoured {
+                cx.gv = 2;
+            }
+            cx.geo = geometry_v(cx.n, cx.gv);
             cx.pair = None;
             cx.scratch = None;
             // the power-on silencer is strict (10/40 steps) and would reject every STM below: relax it first
@@ -2820,6 +3292,18 @@ pub fn run(args: &Args) {
                 if k == 0 || (4..=6).contains(&k) {
                     cx.frames(&relax, None);
                 }
+            }
+            // the read-back RPCs after the history: power-on (no device reads its state), then after a ReadsFPGAState
+            // with mixed flags and an asserted thermal sensor on one emulator
+            cx.rpcs("after-history");
+            {
+                let flags: Vec<bool> = (0..cx.n).map(|i| (i + rep) % 2 == 0 || cx.n == 1).collect();
+                cx.frames(&n("t2", vec![n("null", vec![]), n("reads", vec![lst(flags.iter().map(|x| b(*x)).collect())])]), None);
+                cx.thermal(rep % cx.n);
+                cx.rpcs("after-reads(mixed)+thermal");
+                cx.thermal((rep + 1) % cx.n);
+                cx.frames(&n("t2", vec![n("null", vec![]), n("reads", vec![lst(flags.iter().map(|x| b(!*x)).collect())])]), None);
+                cx.rpcs("after-reads(inverted)+thermal");
             }
             // pairs: every (modulation, gain) shape statically typed, the rest through DynPair
             for _ in 0..(if thorough { 40 } else { 24 }) {
@@ -2940,6 +3424,18 @@ pub fn run(args: &Args) {
                     }
                 }
             }
+            // group_send: key vectors that leave a datagram key unused (all devices on key 0, two tuples; one keyed
+            // device and a keyless rest): refused by the controller in both worlds, nothing sent
+            {
+                let tuples: Vec<Sx> = (0..2).map(|_| n("t1", vec![g.gain_det()])).collect();
+                if tuples.iter().all(has_model_form) {
+                    cx.out.count("group-send:unused-datagram-key");
+                    cx.gsrv(&vec![0; cx.n], &tuples, None, true);
+                    let mut keys = vec![-1; cx.n];
+                    keys[cx.n - 1] = 1;
+                    cx.gsrv(&keys, &tuples, None, true);
+                }
+            }
             // group_send: malformed key vectors (answered with an error response, nothing sent)
             let t = n("t1", vec![n("null", vec![])]);
             for keys in [vec![], vec![0; cx.n + 1], vec![5; cx.n], vec![i32::MAX; cx.n], vec![i32::MIN; cx.n]] {
@@ -2947,9 +3443,43 @@ pub fn run(args: &Args) {
             }
         }
         cx.n = 2;
+        cx.gv = 0;
         cx.geo = geometry(2);
         cx.pair = None;
         cx.scratch = None;
+    }
+
+    // ---- the other RPCs: before open, malformed open, second open, close -----------------------------------------
+    cx.lifecycle();
+
+    // ---- sender options and merged datagram options behind a link with delayed acknowledgements --------------------
+    {
+        let sopt = |recv_ns: u64, timeout: Option<u64>| n("sopt", vec![a(1_000_000u64), a(recv_ns), opt(timeout, a), a(2), n("async", vec![none()])]);
+        let gains = lst((0..3).map(|i| n("uniform", vec![a(10 + i), a(20 + i)])).collect());
+        let gstm = n("t1", vec![n("gstm", vec![gains, n("div", vec![a(10)]), a(0)])]);
+        let gain = n("t1", vec![n("uniform", vec![a(77), a(3)])]);
+        let clear_gain = n("t2", vec![n("clear", vec![]), n("uniform", vec![a(77), a(3)])]);
+        let gain_gain = n("t2", vec![n("null", vec![]), n("uniform", vec![a(77), a(3)])]);
+        let never = usize::MAX;
+        // SenderOption::timeout = 0: nothing is waited for, all three frames go out although no acknowledgement ever arrives
+        cx.delayed("timeout=0,never-acked", never, &[gstm.clone()], None, Some(&sopt(1_000_000, Some(0))), None);
+        // … = 5 ms: ConfirmResponseFailed after the first frame
+        cx.delayed("timeout=5ms,never-acked", never, &[gstm.clone()], None, Some(&sopt(1_000_000, Some(5_000_000))), None);
+        // … = 10 s, acknowledged after 10 receives 5 ms apart (50 ms; the Gain's own timeout is 20 ms): ok, and not faster than 50 ms
+        cx.delayed("timeout=10s,acked-after-50ms", 10, &[gain.clone()], None, Some(&sopt(5_000_000, Some(10_000_000_000))), Some(Duration::from_millis(50)));
+        // … absent: the datagram's own timeout decides (GainSTM 200 ms: ok)
+        cx.delayed("timeout=none,gstm,acked-after-50ms", 10, &[gstm.clone()], None, Some(&sopt(5_000_000, None)), Some(Duration::from_millis(150)));
+        // the same through group_send (its own branch of the server)
+        cx.delayed("group:timeout=0,never-acked", never, &[gstm.clone()], Some(&[0, 0]), Some(&sopt(1_000_000, Some(0))), None);
+        cx.delayed("group:timeout=10s,acked-after-50ms", 10, &[gain.clone()], Some(&[0, -1]), Some(&sopt(5_000_000, Some(10_000_000_000))), Some(Duration::from_millis(50)));
+        // no sender option at all: the merged DatagramOption of the tuple decides - (Clear, Gain) waits max(200 ms, 20 ms),
+        // (Null, Gain) and a Gain alone 20 ms; acknowledged after 40 receives of the default 1 ms interval
+        cx.delayed("pair(clear,gain):acked-after-40ms", 40, &[clear_gain], None, None, None);
+        cx.delayed("pair(null,gain):acked-after-40ms", 40, &[gain_gain], None, None, None);
+        // Observation, not a violation (same frames, same device state; only the reported result differs): the server
+        // sends a single datagram as the pair (d, NullDatagram), whose merged timeout is max(d's, 200 ms). A lone Gain
+        // (own timeout 20 ms) acknowledged after 40 ms is `ok` through the server and ConfirmResponseFailed directly.
+        cx.delayed("observation:lone-gain-waits-200ms-not-20ms", 40, &[gain], None, None, None);
     }
 
     // ---- malformed requests through the server -------------------------------------------------------------------
@@ -2988,6 +3518,76 @@ pub fn run(args: &Args) {
                 cx.out.case(Some(fnv64(req.text().as_bytes())));
             }
         }
+        // the same through `group_send`: every single-site mutation of a whole `(gsend keys (l tuple…) sopt)` request -
+        // a required field missing in the first / second / third tuple, a bad number anywhere, a bad sender option
+        // inside a group request; the key vector is valid, so only the mutated site can be refused
+        for _ in 0..reps {
+            for round in 0..(if thorough { 24 } else { 12 }) {
+                let nt = 1 + round % 3;
+                let mut msgs = vec![];
+                while msgs.len() < nt {
+                    let k = g.r.below(NKINDS as u64) as usize;
+                    let d = g.dg_kind(k, 2);
+                    if !has_model_form(&d) {
+                        continue;
+                    }
+                    let t = if g.r.chance(1, 4) {
+                        let gg = g.gain_det();
+                        n("t2", vec![d, gg])
+                    } else {
+                        n("t1", vec![d])
+                    };
+                    if let Ok(Ok(m)) = guarded(|| client_tuple(&t, &cx.geo)) {
+                        msgs.push(m);
+                    }
+                }
+                // two devices: keys name the first two tuples (a third one stays unused: refused by the controller
+                // after a successful parse, which the model answers `ok`)
+                let keys: Vec<i32> = if nt == 1 { vec![0, *g.r.pick(&[0, -1])] } else { vec![1, 0] };
+                let so = if round % 2 == 0 { Some(sopt_to_msg(&g.sopt())) } else { None };
+                let req = n("gsend", vec![lst(keys.iter().map(a).collect()), lst(msgs.iter().map(m_tuple).collect()), opt(so.as_ref(), m_sopt)]);
+                let mut ms = vec![];
+                mutations(&req, &mut vec![], &mut ms);
+                cx.out.count_n("group-malformed:mutation-sites", ms.len() as u64);
+                // keep the mutations of the later tuples and of the sender option in the sample
+                let mut keep: Vec<Mutation> = vec![];
+                for want in [vec![2usize, nt], vec![3usize]] {
+                    let c: Vec<usize> = (0..ms.len()).filter(|&i| ms[i].path.starts_with(&want)).collect();
+                    if !c.is_empty() {
+                        keep.push(ms[c[r.below(c.len() as u64) as usize]].clone());
+                    }
+                }
+                while ms.len() > per_case {
+                    let i = r.below(ms.len() as u64) as usize;
+                    ms.swap_remove(i);
+                }
+                ms.extend(keep);
+                for mu in ms {
+                    cx.out.count(&format!("group-malformed:site:{}", match mu.path.as_slice() { [2, i, ..] => format!("tuple{i}"), [3, ..] => "sender-option".to_string(), _ => "request".to_string() }));
+                    cx.gsrv_raw(&apply(&req, &mu), Some(&mu));
+                }
+                cx.out.case(Some(fnv64(req.text().as_bytes())));
+            }
+        }
+        // structural malformations of group requests: the parse comes before the key-length test, the sender option after it
+        {
+            let fail = |name: &str| Mutation { path: vec![], value: None, must_fail: true, name: name.to_string() };
+            let ok_t = n("tuple", vec![n("d", vec![n("clear", vec![])]), none()]);
+            let waitable = n("sopt", vec![a(1), a(1), none(), a(0), n("wait", vec![])]);
+            let cases: Vec<(Sx, &str)> = vec![
+                (n("gsend", vec![lst(vec![a(0), a(0)]), lst(vec![ok_t.clone(), n("tuple", vec![none(), none()])]), none()]), "gsend.tuple2.1=~"),
+                (n("gsend", vec![lst(vec![a(0), a(1)]), lst(vec![ok_t.clone(), n("tuple", vec![n("d", vec![none()]), none()])]), none()]), "gsend.tuple2.d.1=~"),
+                (n("gsend", vec![lst(vec![a(0), a(0)]), lst(vec![ok_t.clone(), n("tuple", vec![n("d", vec![n("clear", vec![])]), n("d", vec![none()])])]), none()]), "gsend.tuple2.2.d.1=~"),
+                (n("gsend", vec![lst(vec![]), lst(vec![n("tuple", vec![none(), none()])]), none()]), "gsend.keys=[]+tuple.1=~"),
+                (n("gsend", vec![lst(vec![a(0), a(0), a(0)]), lst(vec![ok_t.clone(), n("tuple", vec![none(), none()])]), none()]), "gsend.keys=3+tuple2.1=~"),
+                (n("gsend", vec![lst(vec![a(0), a(0)]), lst(vec![ok_t.clone()]), waitable.clone()]), "gsend.sopt.sleeper=waitable"),
+                (n("gsend", vec![lst(vec![a(0), a(0)]), lst(vec![ok_t.clone()]), n("sopt", vec![a(1), a(1), none(), a(3), n("std", vec![none()])])]), "gsend.sopt.4=3"),
+                (n("gsend", vec![lst(vec![a(0), a(0)]), lst(vec![ok_t.clone()]), n("sopt", vec![a(1), a(1), none(), a(0), none()])]), "gsend.sopt.5=~"),
+            ];
+            for (req, name) in cases {
+                cx.gsrv_raw(&req, Some(&fail(name)));
+            }
+        }
         // structural malformations
         let cp = |k: usize| lst((0..k).map(|_| n("cp", vec![n("p", vec![fb(1.), fb(2.), fb(150.)]), a(0)])).collect());
         let sc10 = n("sc", vec![n("div", vec![a(10)])]);
@@ -3020,6 +3620,6 @@ pub fn run(args: &Args) {
     cx.out.notes.push(format!("{lines} op lines; conversions use unrestricted bit patterns, frames/state comparisons realistic values"));
     out.finish(
         "lw",
-        "model answer == implementation answer on every line (client message text; rebuilt SDK value or error kind of each from_msg; server parse outcome); oracle: round trip at bit level, frames+state server vs direct, malformed => error and never panic",
+        "model answer == implementation answer on every line (client message text; rebuilt SDK value or error kind of each from_msg; server parse outcome of send and group_send requests incl. mutated group requests); oracle: round trip at bit level, frames+state server vs direct (geometries with rotated/shifted devices: model-invisible), malformed => error and never panic; oracle-only: sound-speed probe, fpga_state/firmware_version RPCs, open/close life cycle, delayed-ack link for sender-option and merged datagram-option timeouts",
     );
 }
